@@ -13,6 +13,7 @@ import (
 
 	"github.com/Oneledger/protocol/action"
 	"github.com/Oneledger/protocol/data/balance"
+	"github.com/Oneledger/protocol/data/delegation"
 	"github.com/Oneledger/protocol/identity"
 	"github.com/Oneledger/protocol/storage"
 	sv "github.com/Oneledger/protocol/zz_sv"
@@ -61,6 +62,14 @@ func svGenesisWithValidators(app *App, stakes []int64) {
 		if err := vs.HandleStake(identity.Stake{ValidatorAddress: p.Addr, StakeAddress: p.Addr, Pubkey: p.Pub, ECDSAPubKey: p.Pub,
 			Name: fmt.Sprint("node", i), Amount: amt}, false, 0); err != nil {
 			sv.Unreachable("genesis validator")
+		}
+	}
+	// an unstake of party A matures at block 3 and another at block 4 (the block-end
+	// hook moves them to the withdrawable record)
+	for _, h := range []int64{3, 4} {
+		mb := &delegation.MatureBlock{Height: h, Data: []*delegation.MatureData{{Address: svParty_(0).Addr, Amount: *balance.NewAmount(7 + h), Height: h}}}
+		if err := ds.SetMatureAmounts(h, mb); err != nil {
+			sv.Unreachable("genesis maturing record")
 		}
 	}
 	ctx.SetBlockStore(sv.BlockStore([]int64{1}, []int64{1600000000}))
